@@ -556,7 +556,7 @@ def new_result():
 
 
 def shards(tier, seed, scale=1.0):
-    nsh, per = {"quick": (24, 70), "thorough": (64, 900)}[tier]
+    nsh, per = {"quick": (24, 70), "thorough": (255, 125)}[tier]
     per = max(1, int(per * scale))
     out = []
     for s in range(nsh):
